@@ -91,12 +91,12 @@ theorem single_nl_table : ∀ c ∈ [(10 : UInt8), 13, 0],
 /-- `stateCommentStarted` on a byte other than '#', LF, CR, NUL: it is a one-line comment -/
 theorem started_other_table :
     allOther [35, 10, 13, 0]
-      (isLeaf ([Op.setStep St.stateSingleComment], Cont.call St.stateSingleComment))
+      (isLeaf ([Op.setStep St.stateSingleComment], Cont.redispatch))
       (code St.stateCommentStarted) = true := by decide
 
 /-- `stateCommentStarted` on LF, CR, NUL: an empty one-line comment -/
 theorem started_nl_table : ∀ c ∈ [(10 : UInt8), 13, 0],
-    allSel c (isLeaf ([Op.setStep St.stateSingleComment], Cont.call St.stateSingleComment))
+    allSel c (isLeaf ([Op.setStep St.stateSingleComment], Cont.redispatch))
       (code St.stateCommentStarted) = true := by decide
 
 /-! ### one-byte lemmas -/
@@ -137,7 +137,7 @@ theorem started_step (d : Src) (o : Oracle) (sc : Sc) (hstep : sc.step = .stateC
       .ok { sc with step := .stateSingleComment } := by
     rw [hstep]
     show interp d o _ (15 + 1) _ _ = _
-    rw [interp_call (fuel := 15) hsel rfl]
+    rw [interp_redispatch (fuel := 15) hsel rfl]
     exact interp_done (fuel := 14) hsel' rfl
   rw [byteStep_ok hlt (by intro h; apply hc; simp [h]) hi hrew]
   cases sc; simp_all
@@ -235,7 +235,7 @@ theorem interp_started_nl (d : Src) (o : Oracle) (c : UInt8) (hc : c ∈ [(10 : 
     interp d o c (fuel + 2) .stateCommentStarted sc =
       interp d o c fuel st { sc with step := st, stack := stk } := by
   have hsel := eq_of_isLeaf (allSel_select (evalCond d sc) _ (started_nl_table c hc))
-  rw [interp_call hsel rfl,
+  rw [interp_redispatch hsel rfl,
     interp_single_nl d o c hc fuel { sc with step := .stateSingleComment } st stk hstack]
 
 /-- (5, exact form) the byte step on the line end (LF, CR, or the end of the file) from inside a
